@@ -1,6 +1,10 @@
 import DFV.Lemmas.C17Examples
+import DFV.Lemmas.C17Examples2
 import DFV.Lemmas.C17Spacing
 import DFV.Lemmas.C17Attrs
+import DFV.Lemmas.C17Fast
+import DFV.Lemmas.C17Idem
+import DFV.Lemmas.C17Bare
 import DFV.Props.C01
 /-!
 # C17 — xarray export/import is lossless and uses cell centres as coordinates
@@ -783,6 +787,369 @@ theorem wf_of_constructors (p1 p2 : List Rat) (d : List String) (units : Option 
 
 end
 
+/-! ## Second extension round: exact acceptance of the importer, idempotence, more on the spacing test -/
+
+section
+variable [FieldAttrs] {α : Type}
+
+/-! ### what the correspondence run executes -/
+
+/-- **The linear-time forms the driver runs are the functions the theorems are about**: the
+one-pass `np.diff`, its mean and the spacing test built from them equal the pointwise
+definitions for every coordinate, and the importer that uses them equals `fromXarray` on every
+argument — so DataArrays with axes of thousands of cells are compared against the very model
+these theorems describe. -/
+theorem fast_import_eq (o : PyObj α) (v : List Rat) :
+    fromXarrayFast o = fromXarray o ∧
+    diffsL v = diffs v ∧ meanDiffL v = meanDiff v ∧ evenFast v = evenB v :=
+  ⟨fromXarrayFast_eq o, diffsL_eq v, meanDiffL_eq v, evenFast_eq v⟩
+
+/-! ### the spacing test -/
+
+omit [FieldAttrs] in
+/-- **Invariance under ANY non-zero factor** — also a negative one (the same axis pointing the
+other way): the verdict on `s·v` is the verdict on `v`, for one coordinate and for the spacing loop
+over a DataArray; the factor `0` (all coordinates collapsed onto one point) always passes. -/
+theorem spacing_test_any_factor (s : Rat) (v : List Rat) (xa : XA α) :
+    (s ≠ 0 → evenB (v.map (s * ·)) = evenB v) ∧
+    (s ≠ 0 → checkSpacing (scaleCoords s xa) = checkSpacing xa) ∧
+    evenB (v.map ((0 : Rat) * ·)) = true :=
+  ⟨fun hs => evenB_scale_ne s hs v, fun hs => checkSpacing_scale_ne s hs xa, evenB_scale_zero v⟩
+
+omit [FieldAttrs] in
+/-- **Reversal invariance**: a coordinate read backwards gets the same verdict (descending
+coordinates are "evenly spaced" exactly when their ascending copy is). -/
+theorem spacing_test_reversal_invariant (v : List Rat) : evenB v.reverse = evenB v := evenB_reverse v
+
+omit [FieldAttrs] in
+/-- **What accepted coordinates look like.**  If a coordinate passes the spacing test then, with
+`m` its mean step: every step `d` satisfies `(1 − 1e-5)·m² ≤ d·m ≤ (1 + 1e-5)·m²` (i.e. `d/m` lies
+in `[1 − 1e-5, 1 + 1e-5]`); hence the coordinate is constant (`m = 0`), strictly increasing
+(`m > 0`) or strictly decreasing (`m < 0`) — never a mixture. -/
+theorem spacing_accepted_monotone (v : List Rat) (h : evenB v = true) :
+    (∀ j, j + 1 < v.length →
+      (1 - 1/100000) * (meanDiff v * meanDiff v) ≤ (v.getD (j + 1) 0 - v.getD j 0) * meanDiff v ∧
+      (v.getD (j + 1) 0 - v.getD j 0) * meanDiff v ≤ (1 + 1/100000) * (meanDiff v * meanDiff v)) ∧
+    (meanDiff v = 0 → ∀ j, j + 1 < v.length → v.getD (j + 1) 0 = v.getD j 0) ∧
+    (0 < meanDiff v → ∀ j, j + 1 < v.length → v.getD j 0 < v.getD (j + 1) 0) ∧
+    (meanDiff v < 0 → ∀ j, j + 1 < v.length → v.getD (j + 1) 0 < v.getD j 0) := by
+  have hs := (evenB_iff_spec v).mp h
+  exact ⟨fun j hj => evenSpec_step_bounds v hs j hj, evenSpec_monotone v hs⟩
+
+omit [FieldAttrs] in
+/-- any two coordinates pass the spacing test (their single step is the mean step) — equal or
+descending ones too; what happens to those is decided later, by `Region` and `Mesh` -/
+theorem spacing_two_coordinates (a b : Rat) : evenB [a, b] = true := evenB_two a b
+
+/-! ### exact acceptance of each step, with the refusal classes -/
+
+omit [FieldAttrs] in
+/-- **The component-count checks, refusal classes**: `KeyError` iff the attribute is absent;
+`TypeError` iff it is a non-int number `≥ 1`; `ValueError` iff it is a number `< 1` (int or not) or
+an int `> 1` without a `vdims` dimension.  (Acceptance: `component_count_accepted_iff`.) -/
+theorem component_count_refusal_iff (nv : Option NvAttr) (dims : List String) :
+    (checkNvdim nv dims = .error .key ↔ nv = none) ∧
+    (checkNvdim nv dims = .error .type ↔ ∃ q, nv = some (.other q) ∧ 1 ≤ q) ∧
+    (checkNvdim nv dims = .error .value ↔
+      (∃ q, nv = some (.other q) ∧ q < 1) ∨
+      (∃ k : Int, nv = some (.int k) ∧ (k < 1 ∨ (1 < k ∧ ¬ "vdims" ∈ dims)))) :=
+  checkNvdim_err_iff nv dims
+
+omit [FieldAttrs] in
+/-- **Cell sizes: taken or inferred, exactly.**  The step succeeds iff the `cell` attribute is
+present, or `xa.values.shape[:-1]` contains no 1 and every geometric coordinate has at least two
+values; the result is the attribute, else the mean step of every coordinate (`cellUsed`).
+Refusals: `KeyError` iff `cell` is absent and `xa.values.shape[:-1]` contains a 1 (for a scalar
+field that slice does NOT include the last geometric axis); `ValueError` iff `cell` is absent,
+there is no such 1, and some coordinate has fewer than two values (the NaN cell `Mesh` refuses).
+So a single-cell axis always requires the attribute. -/
+theorem cell_inference_iff (xa : XA α) (c : List Rat) :
+    (cellOf xa = .ok c ↔
+      (xa.attrs.cell = none → (∀ x ∈ xa.data.shape.dropLast, x ≠ 1) ∧ ∀ ax ∈ geo xa, 2 ≤ ax.values.length) ∧
+      c = cellUsed xa) ∧
+    (cellOf xa = .error .key ↔ xa.attrs.cell = none ∧ 1 ∈ xa.data.shape.dropLast) ∧
+    (cellOf xa = .error .value ↔ xa.attrs.cell = none ∧ ¬ 1 ∈ xa.data.shape.dropLast ∧
+      ∃ ax ∈ geo xa, ax.values.length ≤ 1) :=
+  ⟨cellOf_ok_iff xa c, (cellOf_err_iff xa).1, (cellOf_err_iff xa).2⟩
+
+omit [FieldAttrs] in
+/-- **Corners: taken or inferred, exactly.**  Each corner is the attribute if present (whatever
+the coordinates say), else first coordinate − half a cell (`pmin`) / last coordinate + half a cell
+(`pmax`), axis by axis over `zip(dims, cell)`; inferring fails (`IndexError`) iff some paired
+coordinate has no value at all. -/
+theorem corner_inference_iff (xa : XA α) (p : List Rat) :
+    (p1Of xa (cellUsed xa) = .ok p ↔
+      (xa.attrs.pmin = none → ∀ q ∈ List.zip (geo xa) (cellUsed xa), q.1.values ≠ []) ∧ p = p1Used xa) ∧
+    (p2Of xa (cellUsed xa) = .ok p ↔
+      (xa.attrs.pmax = none → ∀ q ∈ List.zip (geo xa) (cellUsed xa), q.1.values ≠ []) ∧ p = p2Used xa) ∧
+    (∀ e, p1Of xa (cellUsed xa) = .error e → e = .index) ∧
+    (xa.attrs.pmin = none → p1Used xa = List.zipWith (fun a c => a.values.getD 0 0 - c / 2) (geo xa) (cellUsed xa)) ∧
+    (xa.attrs.pmax = none →
+      p2Used xa = List.zipWith (fun a c => a.values.getD (a.values.length - 1) 0 + c / 2) (geo xa) (cellUsed xa)) ∧
+    (∀ q, xa.attrs.pmin = some q → p1Used xa = q) ∧ (∀ q, xa.attrs.pmax = some q → p2Used xa = q) := by
+  refine ⟨p1Of_ok_iff xa p, p2Of_ok_iff xa p, fun e h => p1Of_err xa e h, ?_, ?_, ?_, ?_⟩
+  · intro h; unfold p1Used; rw [h]
+  · intro h; unfold p2Used; rw [h]
+  · intro q h; unfold p1Used; rw [h]
+  · intro q h; unfold p2Used; rw [h]
+
+omit [FieldAttrs] in
+/-- **The geometry steps of `from_xarray`, from the inputs alone — acceptance and result.**
+For EVERY DataArray (hand-built, attributes complete, partly or wholly absent, consistent with the
+coordinates or not, any number of dimensions, single-cell axes included) the geometry steps build
+mesh `m` if and only if
+* every geometric coordinate meets the spacing specification;
+* `cell` is present, or it can be inferred (no 1 in `xa.values.shape[:-1]`, two values per coordinate);
+* `pmin`, `pmax` are present or every coordinate has a value;
+* the corners used (`p1Used`, `p2Used`: attribute, else outermost coordinate ∓ half a cell) have
+  the same non-zero length, one entry per geometric dimension, the dimension names are distinct
+  and the corners differ on every axis — the acceptance condition of `Region` (C01);
+* the cell sizes used (`cellUsed`: attribute, else mean steps) are one positive number per axis,
+  none exceeds its edge by more than the comparison tolerance, every edge is within
+  `min(cell)/1000` of a whole number `≥ 1` of cells — the acceptance condition of `Mesh` (C01);
+and `m` is the mesh on `regionUsed` (componentwise min / max of the corners used, the dimension
+names, the coordinates' units if ALL have them else `m`, tolerance factor = attribute or `1e-12`)
+whose counts are those whole numbers, without boundary conditions or subregions.  Attributes that
+are present override the coordinates; no hypothesis on any intermediate result. -/
+theorem import_geometry_ok_iff (xa : XA α) (m : Mesh) :
+    geometryOf xa = .ok m ↔
+      (∀ ax ∈ geo xa, ∀ j, j + 1 < ax.values.length →
+        absR ((ax.values.getD (j + 1) 0 - ax.values.getD j 0) - meanDiff ax.values)
+          ≤ 1/100000 * absR (meanDiff ax.values)) ∧
+      (xa.attrs.cell = none → (∀ x ∈ xa.data.shape.dropLast, x ≠ 1) ∧ ∀ ax ∈ geo xa, 2 ≤ ax.values.length) ∧
+      (xa.attrs.pmin = none → ∀ q ∈ List.zip (geo xa) (cellUsed xa), q.1.values ≠ []) ∧
+      (xa.attrs.pmax = none → ∀ q ∈ List.zip (geo xa) (cellUsed xa), q.1.values ≠ []) ∧
+      ((p1Used xa).length = (p2Used xa).length ∧ (p1Used xa).length ≠ 0 ∧ (geo xa).length = (p1Used xa).length ∧
+        hasDup ((geo xa).map Axis.name) = false ∧
+        ∀ a, a < (p1Used xa).length → (p1Used xa).getD a 0 ≠ (p2Used xa).getD a 0) ∧
+      ((cellUsed xa).length = (p1Used xa).length ∧ (∀ c ∈ cellUsed xa, 0 < c) ∧
+        ∀ a, a < (p1Used xa).length → (cellUsed xa).getD a 0 - (regionUsed xa).edge a
+          ≤ C01.band (regionUsed xa) ((regionUsed xa).lo a + (cellUsed xa).getD a 0)) ∧
+      m.region = { regionUsed xa with tol := xa.attrs.tol.getD defaultTol } ∧ m.bc = "" ∧ m.subs = [] ∧
+      m.n.length = (p1Used xa).length ∧
+      ∀ a, a < (p1Used xa).length → 1 ≤ m.nAt a ∧
+        |(regionUsed xa).edge a - (m.nAt a : Rat) * (cellUsed xa).getD a 0| ≤ listMin (cellUsed xa) / 1000 :=
+  geometryOf_ok_iff_inputs xa m
+
+omit [FieldAttrs] in
+/-- the region of `import_geometry_ok_iff`, spelled out: corners = componentwise min / max of the
+corners used, names = the geometric dimensions, units = the coordinates' if every geometric
+coordinate has a `units` attribute and `m` on every axis otherwise, default tolerance factor -/
+theorem import_region_formula (xa : XA α) :
+    (regionUsed xa).pmin = (tab (p1Used xa).length fun a => min ((p1Used xa).getD a 0) ((p2Used xa).getD a 0)) ∧
+    (regionUsed xa).pmax = (tab (p1Used xa).length fun a => max ((p1Used xa).getD a 0) ((p2Used xa).getD a 0)) ∧
+    (regionUsed xa).dims = (geo xa).map Axis.name ∧ (regionUsed xa).tol = defaultTol ∧
+    ((∀ ax ∈ geo xa, ax.units ≠ none) → (regionUsed xa).units = (geo xa).map fun a => a.units.getD "") ∧
+    ((∃ ax ∈ geo xa, ax.units = none) → (regionUsed xa).units = List.replicate (geo xa).length "m") := by
+  refine ⟨rfl, rfl, rfl, rfl, ?_, ?_⟩
+  · intro h
+    show unitsUsed xa = _
+    unfold unitsUsed
+    have : (geo xa).any (fun a => a.units.isNone) = false := by
+      rw [List.any_eq_false]
+      intro ax hax
+      have := h ax hax
+      cases hu : ax.units with
+      | none => exact absurd hu this
+      | some u => simp
+    rw [this]; rfl
+  · rintro ⟨ax, hax, hu⟩
+    show unitsUsed xa = _
+    unfold unitsUsed
+    have : (geo xa).any (fun a => a.units.isNone) = true :=
+      List.any_eq_true.mpr ⟨ax, hax, by rw [hu]; rfl⟩
+    rw [this]; rfl
+
+/-- **`from_xarray` accepts exactly …**: a DataArray is imported iff for some `k` and `m` the
+component-count checks pass with `k` (`component_count_accepted_iff`), the geometry steps build `m`
+(`import_geometry_ok_iff`), the data fit: they have the mesh's shape (scalar field) or last axis
+`k` and broadcast to `(*m.n, k)` by numpy's rule (`DataFits`), and the label coordinate is absent,
+empty, or `k` distinct strings none of which names an attribute of `Field` (`LabelsOk`).  Every
+condition is on the input. -/
+theorem import_ok_iff (xa : XA α) :
+    (∃ g, fromXarray (.dataArray xa) = .ok g) ↔
+      ∃ (k : Nat) (m : Mesh), (1 ≤ k ∧ xa.attrs.nvdim = some (.int (k : Int)) ∧ (1 < k → "vdims" ∈ xa.dims)) ∧
+        geometryOf xa = .ok m ∧ DataFits (valOf xa k).shape m.n k ∧ LabelsOk k xa.vdimsCoord :=
+  fromXA_ok_iff xa
+
+omit [FieldAttrs] in
+/-- the two conditions of `import_ok_iff` on data and labels are the acceptance conditions of
+`_as_array` and of the `vdims` setter, index level: shapes broadcast iff aligned at the last axis
+every source length is 1 or the target's -/
+theorem data_fits_iff (val : NDA α) (n : List Nat) (k : Nat) :
+    ((∃ d, asArray val n k = .ok d) ↔
+      (k = 1 ∧ val.shape = n) ∨
+      (val.shape.getLast? = some k ∧ val.shape.length ≤ (n ++ [k]).length ∧
+        ∀ a, a < val.shape.length →
+          val.shape.getD a 0 = 1 ∨ val.shape.getD a 0 = (n ++ [k]).getD (a + ((n ++ [k]).length - val.shape.length)) 0)) :=
+  asArray_ok_iff val n k
+
+/-- … and the labels: the `vdims` setter accepts a label coordinate iff it is absent, empty, or
+`k` distinct strings none of which names an attribute of `Field` -/
+theorem labels_ok_iff (k : Nat) (vc : Option (List String)) :
+    (∃ vd, vdimsSet k vc = .ok vd) ↔
+      ∀ l, vc = some l → l = [] ∨ (l.length = k ∧ hasDup l = false ∧ l.any FieldAttrs.has = false) :=
+  vdimsSet_ok_iff k vc
+
+/-- **The mesh and the values of EVERY accepted DataArray.**  Whenever `from_xarray` returns a
+field `g`: its region is `regionUsed` with the tolerance factor of the attribute (default
+`1e-12`), its counts are the whole numbers of cells the edges hold, `nvdim` is the attribute; and
+if the data have the mesh's shape (no broadcasting) every value sits at its own cell and component —
+whatever the attributes say about the geometry and wherever the coordinates lie. -/
+theorem import_result_formula (xa : XA α) (g : XFld α) (h : fromXarray (.dataArray xa) = .ok g) :
+    g.mesh.region = { regionUsed xa with tol := xa.attrs.tol.getD defaultTol } ∧
+    g.mesh.n.length = (p1Used xa).length ∧
+    (∀ a, a < (p1Used xa).length → 1 ≤ g.mesh.nAt a ∧
+      |(regionUsed xa).edge a - (g.mesh.nAt a : Rat) * (cellUsed xa).getD a 0| ≤ listMin (cellUsed xa) / 1000) ∧
+    xa.attrs.nvdim = some (.int g.nvdim) ∧
+    (xa.data.shape = g.mesh.n ++ (if 1 < g.nvdim then [g.nvdim] else []) →
+      g.data.shape = g.mesh.n ++ [g.nvdim] ∧
+      ∀ i, inRange (g.mesh.n ++ [g.nvdim]) i = true →
+        g.data.get i = xa.data.get (if 1 < g.nvdim then i else i.dropLast)) := by
+  have h' : fromXA xa = .ok g := h
+  have hv := fromXA_values xa g h'
+  rw [fromXA_eq, bind_ok_iff] at h'
+  obtain ⟨k, h1, h'⟩ := h'
+  rw [bind_ok_iff] at h'
+  obtain ⟨m, h2, h3⟩ := h'
+  have hm : g.mesh = m ∧ g.nvdim = k := by
+    unfold fieldOf at h3
+    rw [bind_ok_iff] at h3
+    obtain ⟨d1, -, h3⟩ := h3
+    rw [bind_ok_iff] at h3
+    obtain ⟨d, -, h3⟩ := h3
+    rw [bind_ok_iff] at h3
+    obtain ⟨vd, -, h3⟩ := h3
+    injection h3 with h3
+    rw [← h3]
+    exact ⟨rfl, rfl⟩
+  obtain ⟨-, -, -, -, -, -, c1, -, -, c4, c5⟩ := (geometryOf_ok_iff_inputs xa m).mp h2
+  rw [hm.1, hm.2]
+  refine ⟨c1, c4, c5, (checkNvdim_inv _ _ _ h1).2.1, ?_⟩
+  rw [← hm.1, ← hm.2]
+  exact hv
+
+/-- **The values of EVERY accepted DataArray, broadcasting included.**  Entry `i` of the imported
+array is the entry of `np.expand_dims(xa.values, -1)` (scalar) / `xa.values` (vector) that numpy's
+broadcasting into `(*n, nvdim)` reads: aligned at the last axis, the entry with the same index on
+every source axis of the target's length and index 0 on every source axis of length 1 (attributes
+that contradict the data shape are accepted when this is possible: one value fills n cells); a
+scalar array that has exactly the mesh's shape after the expansion is taken as it is. -/
+theorem import_values_formula (xa : XA α) (g : XFld α) (h : fromXarray (.dataArray xa) = .ok g) :
+    g.data.shape = g.mesh.n ++ [g.nvdim] ∧
+    ∀ i, inRange (g.mesh.n ++ [g.nvdim]) i = true →
+      g.data.get i =
+        if g.nvdim = 1 ∧ (valOf xa g.nvdim).shape = g.mesh.n then (valOf xa g.nvdim).get i.dropLast
+        else (valOf xa g.nvdim).get
+          (tab (valOf xa g.nvdim).shape.length fun a =>
+            if (valOf xa g.nvdim).shape.getD a 0 = 1 then 0
+            else i.getD (a + ((g.mesh.n ++ [g.nvdim]).length - (valOf xa g.nvdim).shape.length)) 0) :=
+  fromXA_values_gen xa g h
+
+omit [FieldAttrs] in
+/-- **The attribute-free class, exactly** ("importing a DataArray that lacks the geometric
+attributes rebuilds the mesh from its evenly spaced coordinates, half a cell beyond the outermost
+centres").  A DataArray with none of `cell`, `pmin`, `pmax` — hand-built or not, any number of
+dimensions — gets through the geometry steps iff it has at least one geometric dimension, the
+dimension names are distinct, `xa.values.shape[:-1]` contains no 1, and every geometric coordinate
+has at least two values, meets the spacing specification and ascends (first < last).  The mesh is
+then `bareMesh`: exactly one cell per coordinate value, from `first − mean/2` to `last + mean/2`
+on every axis, for ANY accepted coordinates — evenly spaced within the tolerance of the test, not
+only exact progressions (the mean step is `(last − first)/(N − 1)`, so the edge `last − first +
+mean` is exactly `N` mean steps and the count is `N` whatever the individual steps are). -/
+theorem attribute_free_import_iff (xa : XA α) (hc : xa.attrs.cell = none) (hp : xa.attrs.pmin = none)
+    (hq : xa.attrs.pmax = none) (m : Mesh) :
+    geometryOf xa = .ok m ↔
+      (geo xa ≠ [] ∧ hasDup ((geo xa).map Axis.name) = false ∧ (∀ x ∈ xa.data.shape.dropLast, x ≠ 1) ∧
+        ∀ ax ∈ geo xa, 2 ≤ ax.values.length ∧
+          (∀ j, j + 1 < ax.values.length →
+            absR ((ax.values.getD (j + 1) 0 - ax.values.getD j 0) - meanDiff ax.values)
+              ≤ 1/100000 * absR (meanDiff ax.values)) ∧
+          ax.values.getD 0 0 < ax.values.getD (ax.values.length - 1) 0) ∧
+      m = bareMesh xa :=
+  bare_geometry_iff xa ⟨hc, hp, hq⟩ m
+
+omit [FieldAttrs] in
+/-- `bareMesh`, field by field: corners half a mean step beyond the outermost coordinates, one
+cell per coordinate value, the dimensions' names, units as in `import_region_formula`, tolerance
+factor = attribute or default, no boundary conditions, no subregions -/
+theorem attribute_free_mesh (xa : XA α) :
+    (bareMesh xa).region.pmin = ((geo xa).map fun a => a.values.getD 0 0 - meanDiff a.values / 2) ∧
+    (bareMesh xa).region.pmax = ((geo xa).map fun a => a.values.getD (a.values.length - 1) 0 + meanDiff a.values / 2) ∧
+    (bareMesh xa).n = ((geo xa).map fun a => a.values.length) ∧
+    (bareMesh xa).region.dims = (geo xa).map Axis.name ∧ (bareMesh xa).region.units = unitsUsed xa ∧
+    (bareMesh xa).region.tol = xa.attrs.tol.getD defaultTol ∧ (bareMesh xa).bc = "" ∧ (bareMesh xa).subs = [] :=
+  ⟨rfl, rfl, rfl, rfl, rfl, rfl, rfl, rfl⟩
+
+/-! ### the export as input of the inference; idempotence -/
+
+/-- **What the importer's inference finds in an export**: for every well-formed field the
+exported coordinates pass the spacing loop; on every axis the first coordinate minus half a cell is
+`pmin`, the last plus half a cell is `pmax`, and from two cells on the mean step IS the cell size —
+the three facts the attribute-free reconstruction rests on. -/
+theorem export_feeds_inference (f : XFld α) (hf : f.WF) (nm : String) (u : PyArg) :
+    checkSpacing (exported f nm u) = .ok () ∧
+    ∀ a, a < f.mesh.ndim →
+      ((exported f nm u).axes.getD a default).values.getD 0 0 - f.mesh.cellAt a / 2 = f.mesh.region.lo a ∧
+      ((exported f nm u).axes.getD a default).values.getD
+          (((exported f nm u).axes.getD a default).values.length - 1) 0 + f.mesh.cellAt a / 2 = f.mesh.region.hi a ∧
+      (2 ≤ f.mesh.nAt a → meanDiff ((exported f nm u).axes.getD a default).values = f.mesh.cellAt a) :=
+  exported_inference f hf nm u
+
+/-- **Export ∘ import ∘ export = export, up to the `units` attribute**: import the export of a
+well-formed field and export the result with any name / unit arguments: same axes (names, sizes,
+every coordinate value, coordinate units), same geometric attributes, component count and
+tolerance factor, same data at every index, same dtype tag; the label coordinate is the original's
+exactly for `LabelsStd` fields (else the defaults the importer assigned); only the attribute
+`units` is lost (`from_xarray` does not restore the field's unit) unless given again. -/
+theorem export_import_export_idem (f : XFld α) (hf : f.WF) (nm : String) (u : PyArg) (nm' : String) (u' : PyArg) :
+    ∃ g, fromXarray (.dataArray (exported f nm u)) = .ok g ∧
+      (exported g nm' u').axes = (exported f nm u).axes ∧
+      (exported g nm' u').attrs = { (exported f nm u).attrs with units := exportUnit u' none } ∧
+      (LabelsStd f → (exported g nm' u').vdimsCoord = (exported f nm u).vdimsCoord) ∧
+      (exported g nm' u').data.shape = (exported f nm u).data.shape ∧
+      (∀ i, inRange (exported f nm u).data.shape i = true →
+        (exported g nm' u').data.get i = (exported f nm u).data.get i) ∧
+      (exported g nm' u').dtype = (exported f nm u).dtype ∧ (exported g nm' u').name = nm' := by
+  obtain ⟨g, h1, h2, h3, -, h5, h6, h7, h8⟩ := export_import_export f hf nm u nm' u'
+  exact ⟨g, h1, h2, h3, h5, h6.1, fun i hi => h6.2 i (h6.1 ▸ hi), h7, h8⟩
+
+/-- **The round trip succeeds exactly when no spatial dimension is called `vdims`**: for a field
+that meets every other clause of well-formedness (mesh invariant, `nvdim ≥ 1`, array shape, legal
+labels), `from_xarray(to_xarray(f))` returns a field iff `vdims` is not among the region's
+dimension names — the importer takes every dimension of that name for the component axis and
+`Region` then finds fewer names than corner entries.  So `WF`'s clause `novd` is sharp. -/
+theorem roundtrip_iff_no_vdims_dim (f : XFld α) (hm : f.mesh.Inv) (hk : 1 ≤ f.nvdim)
+    (hs : f.data.shape = f.mesh.n ++ [f.nvdim])
+    (hl : ∀ l, f.vdims = some l → l.length = f.nvdim ∧ hasDup l = false ∧ l.any FieldAttrs.has = false)
+    (nm : String) (u : PyArg) :
+    (∃ g, fromXarray (.dataArray (exported f nm u)) = .ok g) ↔ ¬ "vdims" ∈ f.mesh.region.dims := by
+  constructor
+  · rintro ⟨g, hg⟩ hv
+    have hg' : fromXA (exported f nm u) = .ok g := hg
+    rw [fromXA_eq, bind_ok_iff] at hg'
+    obtain ⟨k, -, hg'⟩ := hg'
+    rw [bind_ok_iff] at hg'
+    obtain ⟨m, h2, -⟩ := hg'
+    exact vdims_dim_not_importable f hm hv nm u m h2
+  · intro hv
+    have hf : f.WF := { mesh := hm, nvdim := hk, shape := hs, novd := hv, labels := hl }
+    obtain ⟨g, hg, -⟩ := fromXA_likeExport hf (likeExport_exported hf nm u) (fun h => by cases h)
+    exact ⟨g, hg⟩
+
+omit [FieldAttrs] in
+/-- **Exactly which in-place calls are accepted** on a mesh without subregions (the hypothesis
+`h` of `export_translate_commutes` / `export_scale_commutes`, from the inputs): a translation iff the
+vector has one entry per axis; a scaling iff the factor is a number or one per axis, the reference
+point (default: the centre) has one entry per axis, and no factor is zero. -/
+theorem inplace_accepted_iff (m : Mesh) (hm : m.Inv) (hsub : m.subs = []) :
+    (∀ v : List Rat, (∃ m' ret, T.stepM m (.translate v true) = .ok (m', ret)) ↔ v.length = m.ndim) ∧
+    (∀ (s : T.Factor) (ref : Option (List Rat)), (∃ m' ret, T.stepM m (.scale s ref true) = .ok (m', ret)) ↔
+      (s.okFor m.ndim = true ∧ (refOf m.region ref).length = m.ndim ∧ ∀ a, a < m.ndim → s.at a ≠ 0)) :=
+  inplace_accepted_iff' m hm hsub
+
+end
+
 /-! ## Non-vacuity and witnesses -/
 
 section
@@ -902,6 +1269,94 @@ example : (fromXarray (.dataArray exDesc)).toOption.map (fun g => (g.mesh.region
 (`|e|/2 = 1e-5·(1 + e/2)`), a slightly larger displacement is rejected -/
 example : evenB (tab 3 fun j => (100 : Rat) + (j : Rat) * 1 + (if j = 3 - 1 then 2/99999 else 0)) = true := by decide +kernel
 example : evenB (tab 3 fun j => (100 : Rat) + (j : Rat) * 1 + (if j = 3 - 1 then 2/99998 else 0)) = false := by decide +kernel
+
+/-! ### non-vacuity, second round: 4-d arrays with single-cell axes, contradicting attributes, refusal classes, long coordinates -/
+
+/-- `import_ok_iff` / `import_geometry_ok_iff` / `import_result_formula` on `ex4` (4-d, single-cell
+axes `y` and `w`, three labelled components, only `cell` present): corners = outermost coordinate ∓
+half the cell ATTRIBUTE, units from the coordinates, tolerance factor from the attribute, every
+value at its place -/
+example : (fromXarray (.dataArray ex4)).toOption.map (fun g => (g.mesh.region.pmin, g.mesh.region.pmax, g.mesh.n))
+    = some ([0, 3, -5/4, 2], [4, 7, 1/4, 12], [2, 1, 3, 1]) := by decide +kernel
+example : (fromXarray (.dataArray ex4)).toOption.map (fun g => (g.mesh.region.units, g.mesh.region.tol, g.vdims, g.data.toList))
+    = some (["nm", "nm", "", "s"], 1/1000, some ["a", "b", "c"], List.range 18) := by decide +kernel
+example : (cellUsed ex4, p1Used ex4, p2Used ex4) = ([2, 4, 1/2, 10], [0, 3, -5/4, 2], [4, 7, 1/4, 12]) := by decide +kernel
+example : (geometryOf ex4).toOption.map (·.n) = some [2, 1, 3, 1] := by decide +kernel
+/-- the same array without `cell`: `KeyError` (a 1 among `shape[:-1]`), by `cell_inference_iff` -/
+example : ex4NoCell.attrs.cell = none ∧ 1 ∈ ex4NoCell.data.shape.dropLast := by decide
+example : (cellOf ex4NoCell).toOption = none ∧ (fromXarray (.dataArray ex4NoCell)).toOption.isSome = false := by decide +kernel
+/-- the two refusal classes of the cell inference: single FIRST axis → `KeyError`; single LAST axis
+of a scalar field (not in `shape[:-1]`) → `ValueError` -/
+example : cellOf exFirstSingle = .error .key ∧ cellOf exLastSingle = .error .value := by
+  constructor
+  · exact (cell_inference_iff exFirstSingle []).2.1.mpr (by decide)
+  · refine (cell_inference_iff exLastSingle []).2.2.mpr ⟨rfl, by decide, ?_⟩
+    exact ⟨_, List.mem_cons_of_mem _ (List.mem_singleton.mpr rfl), by decide⟩
+/-- attributes that contradict the coordinates win: coordinates 0, 1, 2 but `cell = 2`, `pmin = 10`,
+`pmax = 16` → 3 cells of size 2 from 10 to 16, the data unmoved -/
+example : (fromXarray (.dataArray exContra)).toOption.map (fun g => (g.mesh.region.pmin, g.mesh.region.pmax, g.mesh.n, g.data.toList))
+    = some ([10], [16], [3], [7, 8, 9]) := by decide +kernel
+/-- … but they must agree with the data shape: `cell = 1` gives a mesh of 6 cells (the geometry steps
+succeed), into which the 3 values do not broadcast (`DataFits` fails) -/
+example : (geometryOf exContraShape).toOption.map (·.n) = some [6] ∧
+    (fromXarray (.dataArray exContraShape)).toOption.isSome = false := by decide +kernel
+
+/-- component-count refusal classes -/
+example : (checkNvdim none ["x"]).toOption = none ∧ (checkNvdim (some (.int 3)) ["x", "vdims"]).toOption = some 3 := by decide
+example : checkNvdim (some (.other (3/2))) ["x"] = .error .type :=
+  (component_count_refusal_iff _ _).2.1.mpr ⟨3/2, rfl, by decide +kernel⟩
+example : checkNvdim (some (.int 2)) ["x", "y"] = .error .value :=
+  (component_count_refusal_iff _ _).2.2.mpr (Or.inr ⟨2, rfl, Or.inr ⟨by decide, by decide⟩⟩)
+
+/-- the linear-time forms on a coordinate of 1000 values: evenly spaced, mean step ¼ -/
+example : evenFast exLong = true ∧ meanDiffL exLong = 1/4 := by decide +kernel
+example : (fromXarrayFast (.dataArray ex4)).toOption.map (·.mesh) = (fromXarray (.dataArray ex4)).toOption.map (·.mesh) := by
+  rw [(fast_import_eq (.dataArray ex4) []).1]
+
+/-- spacing test: reversal and a negative factor keep the verdict (accepted and rejected) -/
+example : evenB [3, 2, 1] = true ∧ evenB [5, 1, 0] = false ∧ evenB ([0, 1, 5].map ((-2 : Rat) * ·)) = false ∧
+    evenB ([1, 2, 3].map ((-2 : Rat) * ·)) = true ∧ evenB [4, 4] = true ∧ evenB [9, -9] = true := by decide +kernel
+/-- hypothesis of `spacing_accepted_monotone` on a slightly uneven accepted coordinate (steps 1 and
+1 + 1/200000, mean 1 + 1/400000): strictly increasing -/
+example : evenB [0, 1, 2 + 1/200000] = true ∧ 0 < meanDiff [0, 1, 2 + 1/200000] := by decide +kernel
+
+/-- export ∘ import ∘ export on the 3-d example: the second export (other name, unit given again)
+has the axes, label coordinate and data of the first -/
+example : (fromXarray (.dataArray (exported exF "field" .none))).toOption.map
+      (fun g => (decide ((exported g "again" (.str "T")).axes = (exported exF "field" .none).axes),
+                 (exported g "again" (.str "T")).vdimsCoord, (exported g "again" (.str "T")).data.toList))
+    = some (true, some ["a", "b"], (exported exF "field" .none).data.toList) := by
+  decide +kernel
+example : (fromXarray (.dataArray (exported exF "field" .none))).toOption.map
+      (fun g => ((exported g "again" (.str "T")).attrs.units, (exported g "again" (.str "T")).attrs.cell))
+    = some (some "T", some [1, 1/2, 1/4]) := by
+  decide +kernel
+/-- the exported coordinates of `exF` feed the inference: first − cell/2 = pmin, mean step = cell on `x` -/
+example : ((exported exF "f" .none).axes.getD 0 default).values.getD 0 0 - exF.mesh.cellAt 0 / 2 = exF.mesh.region.lo 0 ∧
+    meanDiff ((exported exF "f" .none).axes.getD 0 default).values = exF.mesh.cellAt 0 := by decide +kernel
+
+/-- in-place calls `inplace_accepted_iff` refuses on `exS` (2-d, no subregions): wrong length, factor 0 -/
+example : (T.stepM exS.mesh (.translate [1] true)).toOption.isSome = false ∧
+    (T.stepM exS.mesh (.scale (.scalar 0) none true)).toOption.isSome = false ∧
+    (T.stepM exS.mesh (.scale (.vec [2, -1/2]) (some [0, 0]) true)).toOption.isSome = true := by decide +kernel
+
+/-- `roundtrip_iff_no_vdims_dim`: `exS` with its second dimension renamed `vdims` is exported but not imported -/
+example : (fromXarray (.dataArray (exported { exS with mesh := { exS.mesh with region := { exS.mesh.region with dims := ["u", "vdims"] } } } "s" .none))).toOption.isSome = false := by
+  decide +kernel
+
+/-- `import_values_formula` with real broadcasting: ONE data value on a coordinate of one point, attributes that say
+"3 cells from 10 to 16": accepted, the value fills the three cells -/
+example : (fromXarray (.dataArray { exContra with axes := [{ name := "x", size := 1, coord := some { vals := [0], units := none } }],
+                                                    data := ⟨[1], fun _ => 42⟩ })).toOption.map (fun g => (g.mesh.n, g.data.toList))
+    = some ([3], [42, 42, 42]) := by decide +kernel
+
+/-- `attribute_free_import_iff` on coordinates that are evenly spaced only WITHIN the tolerance
+(steps 1 and 1 + 1/200000): accepted, three cells, corners half a MEAN step (1 + 1/400000) beyond -/
+example : (geometryOf ({ exM with axes := [{ name := "x", size := 3, coord := some { vals := [0, 1, 2 + 1/200000], units := none } }] } : XA Nat)).toOption.map
+      (fun m => (m.n, m.region.pmin, m.region.pmax))
+    = some ([3], [-(1 + 1/400000)/2], [2 + 1/200000 + (1 + 1/400000)/2]) := by decide +kernel
+/-- … and `exHand` (no attributes, default index on `x`) is the mesh `bareMesh` describes -/
+example : (geometryOf exHand).toOption = some (bareMesh exHand) := by decide +kernel
 
 end
 
